@@ -109,7 +109,7 @@ func Names(quick bool) Family {
 	// a state whose name is the empty string
 	defs = append(defs,
 		m.Def{"Root": {r("EOF", `a`), r("B", `b|é`), r("Open", `\(`)}},
-		m.Def{"Root": {r("A", `a`), r("EOF", `b+`), push("Open", `\(`, "S")}, "S": {r("EOF", `a`), pop("Close", `\)`)}},
+		m.Def{"Root": {r("A", `a`), r("EOF", `b+`), push("Open", `\(`, "S")}, "S": {r("EOF", `b+`), r("A", `a`), pop("Close", `\)`)}},
 		m.Def{"Root": {r("A", `a`), push("Open", `\(`, "")}, "": {r("B", `b`), pop("Close", `\)`)}},
 		m.Def{"Root": {r("A", `a`), inc(""), push("Open", `\(`, "")}, "": {r("B", `b`), pop("Close", `\)`)}},
 	)
